@@ -28,7 +28,7 @@ theorem C20_nilfs_pure : ∀ i ∈ Generated.nilfsImports,
     i ≠ "os" ∧ i ≠ "syscall" ∧ i ≠ "io/ioutil" ∧ i ≠ "os/exec" ∧ i ≠ "golang.org/x/sys/unix" := by decide
 
 /-- mirror unpacks into nilfs only -/
-theorem C20_mirror_nilfs : Generated.mirrorFs = ["nilFS.New()"] := by decide
+theorem C20_mirror_nilfs : Generated.mirrorFs = ["nilFS.New()", "nilFS.New()"] := by decide
 
 /-- warehouses are opened for reading with `O_RDONLY` (non-blocking since `fix:` 90614d8, so that a fifo at the address
     cannot hold the fetch; no access-mode or creation bit) -/
